@@ -7,7 +7,7 @@
    Hll8); stream ops feed the three sketches of a group in lock-step.
    ops: 1 upd [g; item; coupon]   2 cpn [g; coupon]   3 dump [g; t]   4 est [g; t]
         5 bounds [g; t]           6 raw [g; t]        7 ser [g; t] (not modelled yet) *)
-From DS Require Import Base.Prelude Base.FloatBits Base.HllSort Model.Hll.
+From DS Require Import Base.Prelude Base.FloatBits Base.HllSort Model.Hll Model.HllUnion.
 From Coq Require Import Floats FMapPositive.
 Open Scope Z_scope.
 
@@ -104,7 +104,7 @@ Fixpoint run_from (st : slots) (ops : list zop) : list (list Z) :=
 Definition init (lgk : N) : slots :=
   map (fun t => match hll_new lgk t with Ok s => Some s | _ => None end) [T4; T6; T8; T4; T6; T8].
 
-Definition run (cfg : list Z) (ops : list zop) : list (list Z) :=
+Definition run_c02 (cfg : list Z) (ops : list zop) : list (list Z) :=
   run_from (init (zN (nth 0 cfg 0))) ops.
 
 (* ---------- property oracle (the Spec, not the model) ----------
@@ -186,7 +186,202 @@ Fixpoint prop_from (lgk : N) (g0 g1 : ogroup) (ops : list zop) (obs : list (list
   | _, _ => true
   end.
 
-Definition prop_ok (c : case) : bool :=
-  prop_from (zN (nth 0 (c_cfg c) 0)) og_empty og_empty (c_ops c) (c_obs c).
+Definition is_union_case (cfg : list Z) : bool := nth 1 cfg 0 =? 1.
 
-Definition oracles : list (Z * (case -> bool)) := [(0, prop_ok)].
+Definition prop_ok (c : case) : bool :=
+  if is_union_case (c_cfg c) then true
+  else prop_from (zN (nth 0 (c_cfg c) 0)) og_empty og_empty (c_ops c) (c_obs c).
+
+(* ================= union cases (C03): cfg = [lg_max_k; 1] =================
+   A table of source sketches (slots 0..7) and one HllUnion.
+   ops: 10 new [i; lg_k; t]      slot i := HllSketch::new(lg_k, t)
+        11 cpn [i; coupon]       hook verif_update_with_coupon on slot i
+        12 upd [i; item; coupon] public update(item) on slot i (coupon = reference value)
+        13 ooo [i]               array-mode slot i := deserialize(serialize() with OUT_OF_ORDER set)
+        14 uni [i]               union.update(&slot i)
+        15 uval [item; coupon]   union.update_value(item)
+        16 reset []              union.reset()
+        17 sdump [i]             state of slot i
+        18 tosk [t]              state of union.to_sketch(t)
+        19 est [t]               estimate and six bounds of union.to_sketch(t) (crate only)
+        20 uinfo []              [lg_config_k; lg_max_k; is_empty] of the union
+        21 uest []               estimate and six bounds of the union itself (crate only) *)
+Record ustate := mkUs { us_slots : slots; us_union : option hunion }.
+
+Definition mark_ooo (s : hsketch) : hsketch :=
+  match sk_mode s with
+  | MArr4 a => mkSketch (sk_lgk s) (MArr4 (mkA4 (a4_lgk a) (a4_bytes a) (a4_cur_min a) (a4_num a) (a4_aux a) (hip_set_ooo true (a4_est a))))
+  | MArr6 a => mkSketch (sk_lgk s) (MArr6 (mkA6 (a6_lgk a) (a6_bytes a) (a6_nz a) (hip_set_ooo true (a6_est a))))
+  | MArr8 a => mkSketch (sk_lgk s) (MArr8 (mkA8 (a8_lgk a) (a8_bytes a) (a8_nz a) (hip_set_ooo true (a8_est a))))
+  | _ => s
+  end.
+
+Definition ustep (st : ustate) (o : zop) : ustate * list Z :=
+  let '(code, a) := o in
+  let i := nth 0 a 0 in
+  let with_slot (f : hsketch -> outcome hsketch) : ustate * list Z :=
+    match get_sk (us_slots st) i with
+    | Some s => match f s with
+                | Ok s' => (mkUs (set_nth (Z.to_nat i) (Some s') (us_slots st)) (us_union st), [])
+                | _ => (st, PANIC) end
+    | None => (st, PANIC)
+    end in
+  let with_union (f : hunion -> outcome hunion) : ustate * list Z :=
+    match us_union st with
+    | Some u => match f u with Ok u' => (mkUs (us_slots st) (Some u'), []) | _ => (st, PANIC) end
+    | None => (st, PANIC)
+    end in
+  match code with
+  | 10 => match hll_new (zN (nth 1 a 0)) (tgt_of (nth 2 a 0)) with
+          | Ok s => (mkUs (set_nth (Z.to_nat i) (Some s) (us_slots st)) (us_union st), [])
+          | _ => (st, PANIC) end
+  | 11 => with_slot (fun s => hll_update s (zN (nth 1 a 0)))
+  | 12 => with_slot (fun s => hll_update s (zN (nth 2 a 0)))
+  | 13 => with_slot (fun s => Ok (mark_ooo s))
+  | 14 => match get_sk (us_slots st) i with
+          | Some s => with_union (fun u => union_update u s)
+          | None => (st, PANIC) end
+  | 15 => with_union (fun u => union_update_value u (zN (nth 1 a 0)))
+  | 16 => with_union union_reset
+  | 17 => match get_sk (us_slots st) i with Some s => (st, dump s) | None => (st, PANIC) end
+  | 18 => match us_union st with
+          | Some u => match union_to_sketch u (tgt_of (nth 0 a 0)) with Ok s => (st, dump s) | _ => (st, PANIC) end
+          | None => (st, PANIC) end
+  | 19 | 21 => (st, [])
+  | 20 => match us_union st with
+          | Some u => (st, [Nz (sk_lgk (un_gadget u)); Nz (un_lg_max u); zbool (sketch_is_empty (un_gadget u))])
+          | None => (st, PANIC) end
+  | _ => (st, PANIC)
+  end.
+
+Fixpoint urun_from (st : ustate) (ops : list zop) : list (list Z) :=
+  match ops with
+  | [] => []
+  | o :: r => let '(st', ob) := ustep st o in ob :: urun_from st' r
+  end.
+
+Definition uinit (lg_max : N) : ustate :=
+  mkUs (repeat None 8) (match union_new lg_max with Ok u => Some u | _ => None end).
+
+Definition run (cfg : list Z) (ops : list zop) : list (list Z) :=
+  if is_union_case cfg then urun_from (uinit (zN (nth 0 cfg 0))) ops else run_c02 cfg ops.
+
+(* ---------- the C03 oracle: the Spec of the union, evaluated on the crate's observations ----------
+   Per source slot: lg_k, type and the set of coupons fed (its mode is spec_mode lg_k #distinct).
+   For the union since the last reset: U = union of the coupon sets of the merged non-empty
+   sketches and of update_value; has_array = some merged non-empty input was in array mode;
+   lg_cur = min(lg_max, lg_k of those array-mode inputs).
+   to_sketch(t) must show: array mode iff has_array or spec_mode lg_max |U| = array, then lg_k =
+   lg_cur and register j = max value over the coupons of U with slot mod 2^lg_cur = j; otherwise
+   the coupon set U at lg_max in the mode spec_mode lg_max |U|.  Estimates and bounds taken at
+   the same position must not depend on t, must equal the union's own, and must be positive
+   and finite once U is non-empty. *)
+Record oslot := mkOs { os_lgk : N; os_set : PositiveMap.t unit; os_d : N }.
+Record ounion := mkOu { ou_set : PositiveMap.t unit; ou_d : N; ou_arr : bool; ou_lg : N;
+                        ou_est : option (list Z) (* est obs at the current position *) }.
+
+Definition pm_mem (m : PositiveMap.t unit) (c : N) : bool :=
+  match PositiveMap.find (N.succ_pos c) m with Some _ => true | None => false end.
+Definition os_add (o : oslot) (c : N) : oslot :=
+  if pm_mem (os_set o) c then o else mkOs (os_lgk o) (PositiveMap.add (N.succ_pos c) tt (os_set o)) (os_d o + 1).
+Definition ou_add (u : ounion) (c : N) : ounion :=
+  if pm_mem (ou_set u) c then mkOu (ou_set u) (ou_d u) (ou_arr u) (ou_lg u) None
+  else mkOu (PositiveMap.add (N.succ_pos c) tt (ou_set u)) (ou_d u + 1) (ou_arr u) (ou_lg u) None.
+Definition pm_keys (m : PositiveMap.t unit) : list N := map (fun p => Pos.pred_N (fst p)) (PositiveMap.elements m).
+
+Definition ou_merge (u : ounion) (o : oslot) : ounion :=
+  if (os_d o =? 0)%N then mkOu (ou_set u) (ou_d u) (ou_arr u) (ou_lg u) None
+  else
+    let u1 := fold_left ou_add (pm_keys (os_set o)) u in
+    if spec_mode_code (os_lgk o) (os_d o) =? 2
+    then mkOu (ou_set u1) (ou_d u1) true (N.min (ou_lg u1) (os_lgk o)) None
+    else u1.
+
+Definition ou_is_array (lg_max : N) (u : ounion) : bool :=
+  ou_arr u || (spec_mode_code lg_max (ou_d u) =? 2).
+
+(* per-slot maxima of a coupon set at lg *)
+Definition regs_of (lg : N) (cs : list N) : PositiveMap.t N :=
+  fold_left (fun (m : PositiveMap.t N) (c : N) =>
+               let j := ((c mod 67108864) mod 2 ^ lg)%N in
+               let v := (c / 67108864)%N in
+               match PositiveMap.find (N.succ_pos j) m with
+               | Some w => if (w <? v)%N then PositiveMap.add (N.succ_pos j) v m else m
+               | None => PositiveMap.add (N.succ_pos j) v m
+               end) cs (PositiveMap.empty N).
+Fixpoint regs_match_pm (m : PositiveMap.t N) (j : N) (vs : list Z) : bool :=
+  match vs with
+  | [] => true
+  | v :: r => (Nz (match PositiveMap.find (N.succ_pos j) m with Some w => w | None => 0%N end) =? v)
+              && regs_match_pm m (j + 1) r
+  end.
+
+Definition tosk_ok (lg_max : N) (u : ounion) (t : Z) (ob : list Z) : bool :=
+  let m := nth 0 ob (-1) in
+  if ou_is_array lg_max u then
+    let lg := ou_lg u in
+    let naux := nth 9 ob 0 in
+    let vs := skipn (10 + 2 * Z.to_nat naux) ob in
+    (m =? 2) && (nth 1 ob (-1) =? Nz lg) && (nth 2 ob (-1) =? t) &&
+    (Z.of_nat (length vs) =? 2 ^ Nz lg) && regs_match_pm (regs_of lg (pm_keys (ou_set u))) 0 vs
+  else
+    let cs := skipn 5 ob in
+    (m =? spec_mode_code lg_max (ou_d u)) && (nth 1 ob (-1) =? Nz lg_max) && (nth 2 ob (-1) =? t) &&
+    (Z.of_nat (length cs) =? Nz (ou_d u)) && strictly_increasing cs && forallb (fun c => pm_mem (ou_set u) (zN c)) cs &&
+    (nth 4 ob (-1) =? Nz (ou_d u)).
+
+(* a positive finite binary64 bit pattern *)
+Definition pos_finite_bits (b : Z) : bool := (0 <? b) && (b <? 9218868437227405312).
+
+Definition est_ok (u : ounion) (ob : list Z) : bool :=
+  (Z.of_nat (length ob) =? 7) &&
+  (match ou_est u with Some ob' => list_eqb Z.eqb ob ob' | None => true end) &&
+  (if (ou_d u =? 0)%N then true else pos_finite_bits (nth 0 ob 0)).
+Definition ou_set_est (u : ounion) (ob : list Z) : ounion :=
+  mkOu (ou_set u) (ou_d u) (ou_arr u) (ou_lg u) (Some ob).
+
+Definition oslot_dump_ok (o : oslot) (ob : list Z) : bool :=
+  let m := nth 0 ob (-1) in
+  (m =? spec_mode_code (os_lgk o) (os_d o)) && (nth 1 ob (-1) =? Nz (os_lgk o)) &&
+  if m =? 2 then
+    let naux := nth 9 ob 0 in
+    let vs := skipn (10 + 2 * Z.to_nat naux) ob in
+    (Z.of_nat (length vs) =? 2 ^ Nz (os_lgk o)) && regs_match_pm (regs_of (os_lgk o) (pm_keys (os_set o))) 0 vs
+  else
+    let cs := skipn 5 ob in
+    (Z.of_nat (length cs) =? Nz (os_d o)) && strictly_increasing cs && forallb (fun c => pm_mem (os_set o) (zN c)) cs.
+
+Definition oget (sl : list (option oslot)) (i : Z) : option oslot := nth (Z.to_nat i) sl None.
+
+Fixpoint union_from (lg_max : N) (sl : list (option oslot)) (u : ounion) (ops : list zop) (obs : list (list Z)) : bool :=
+  match ops, obs with
+  | (code, a) :: r, ob :: obr =>
+      if list_eqb Z.eqb ob PANIC then false
+      else
+      let i := nth 0 a 0 in
+      match code with
+      | 10 => union_from lg_max (set_nth (Z.to_nat i) (Some (mkOs (zN (nth 1 a 0)) (PositiveMap.empty unit) 0)) sl) u r obr
+      | 11 | 12 =>
+          match oget sl i with
+          | Some o => union_from lg_max (set_nth (Z.to_nat i) (Some (os_add o (zN (nth (if code =? 11 then 1%nat else 2%nat) a 0)))) sl) u r obr
+          | None => false end
+      | 14 => match oget sl i with Some o => union_from lg_max sl (ou_merge u o) r obr | None => false end
+      | 15 => union_from lg_max sl (ou_add u (zN (nth 1 a 0))) r obr
+      | 16 => union_from lg_max sl (mkOu (PositiveMap.empty unit) 0 false lg_max None) r obr
+      | 17 => match oget sl i with Some o => oslot_dump_ok o ob && union_from lg_max sl u r obr | None => false end
+      | 18 => tosk_ok lg_max u (nth 0 a 0) ob && union_from lg_max sl u r obr
+      | 19 | 21 => est_ok u ob && union_from lg_max sl (ou_set_est u ob) r obr
+      | 20 => (nth 0 ob (-1) =? Nz (if ou_is_array lg_max u then ou_lg u else lg_max)) && (nth 1 ob (-1) =? Nz lg_max) &&
+              (nth 2 ob (-1) =? zbool (ou_d u =? 0)%N) && union_from lg_max sl u r obr
+      | _ => union_from lg_max sl u r obr
+      end
+  | _, _ => true
+  end.
+
+Definition union_ok (c : case) : bool :=
+  if is_union_case (c_cfg c) then
+    let lg_max := zN (nth 0 (c_cfg c) 0) in
+    union_from lg_max (repeat None 8) (mkOu (PositiveMap.empty unit) 0 false lg_max None) (c_ops c) (c_obs c)
+  else true.
+
+Definition oracles : list (Z * (case -> bool)) := [(0, prop_ok); (1, union_ok)].
